@@ -80,6 +80,10 @@ fn extract_single_expr(
 ) -> Result<String, String> {
     let params = locals_outside_exprs(ns, id_to_ty, std::slice::from_ref(expr));
 
+    // An `else if` has no braces of its own, so a call in its place
+    // needs them: `else { extracted_fun() }`.
+    let needs_braces = follows_else_keyword(src, expr.position.start_offset);
+
     let mut result = String::new();
 
     for item in items {
@@ -109,7 +113,13 @@ fn extract_single_expr(
                 .collect::<Vec<String>>()
                 .join(", ");
 
+            if needs_braces {
+                result.push_str("{ ");
+            }
             result.push_str(&format!("{name}({arguments_src})"));
+            if needs_braces {
+                result.push_str(" }");
+            }
             result.push_str(&src[expr.position.end_offset..item_pos.end_offset]);
 
             // Items after.
@@ -120,6 +130,15 @@ fn extract_single_expr(
     }
 
     Ok(result)
+}
+
+/// Is the text before `offset` the keyword `else` (and whitespace)?
+fn follows_else_keyword(src: &str, offset: usize) -> bool {
+    let before = src[..offset].trim_end();
+    match before.strip_suffix("else") {
+        Some(rest) => !rest.ends_with(|c: char| c.is_alphanumeric() || c == '_'),
+        None => false,
+    }
 }
 
 fn extract_exprs(
